@@ -118,7 +118,7 @@ Definition cfg_orig : cfg := {| fixF1 := false; fixF3 := false; fixF4 := false; 
 
 Inductive op :=
 | OPush (n : nat) | OTag (n t : nat) | OUntag (t : nat) | ODelete (n : nat)
-| OGC | OAuto (b : bool) | OStray (s : stray) | OReopen.
+| OGC | OAuto (b : bool) | OStray (s : stray) | OReopen | OForeign.
 
 Section Model.
 Variable succ : nat -> list nat.
@@ -404,6 +404,16 @@ Definition step (c : cfg) (kl : bool) (st : state) (o : op) : state * res :=
      every index entry and runs IndexAll from it; AutoGC is the default again *)
   | OReopen =>
     let ix := filter (fun e => match fst e with RStale _ => false | _ => true end) (idx st) in
+    ({| blobs := blobs st; idx := ix;
+        gnodes := dedup (flat_map (clo c (blobs st)) (map snd ix));
+        strays := strays st; autogc := true |}, Ok)
+  (* the layout as other tools write it: index.json names only the tagged descriptors (no
+     by-digest entries for nested or untagged manifests); then oci.New: loadIndex gives every
+     entry its digest reference and its tag and indexes what the entries reach *)
+  | OForeign =>
+    let ix := flat_map (fun e => match fst e with
+                                 | RTag t => [(RDig (snd e), snd e); (RTag t, snd e)]
+                                 | _ => [] end) (idx st) in
     ({| blobs := blobs st; idx := ix;
         gnodes := dedup (flat_map (clo c (blobs st)) (map snd ix));
         strays := strays st; autogc := true |}, Ok)
